@@ -29,6 +29,19 @@ CLAIMED = {
     'C09': ('Theorem C09_handle_is_the_typed_call_wrapped (Rocq): handle() is the typed call wrapped, or the InvalidTransition refusal '
             'when no method exists; K2 runs the same call through both modes and also compares the two real runs with each other.',
             'proof over the model + pairwise differential runs'),
+    'C08': ('Theorems C08_data_present_iff_in_state_along_every_history (invariant by induction over op histories) / C08_entry_creates_default / '
+            'C08_new_creates_default / C08_infallible_accessor_never_panics / C08_modification_kept (Rocq); K2 reads every slot through every '
+            'accessor after every step of histories with re-entry, self-transitions, refusals, mutations and conversions.',
+            'proof over the model (invariant over histories) + slot-by-slot correspondence'),
+    'C10': ('Theorems C10_conversions_exact / C10_into_state_lossless / C10_conversions_keep_context / C10_default_is_new_of_default (Rocq); '
+            'K2 tries every into_<s>() from every reachable state, interleaved with transitions, Default vs new(Default::default()).',
+            'proof over the model + conversion matrix on compiled machines'),
+    'C11': ('Theorems C11_accessors_gated_by_state / C11_accessor_is_generated / C11_typed_accessor_after_conversion (Rocq); K2 runs '
+            'set/mutate/read/transition sequences with several data states per machine.',
+            'proof over the model + accessor sequences on compiled machines'),
+    'C16': ('Theorems C16_hooks_see_the_machines_context_and_the_callers_payload / C16_transition_carries_the_context / '
+            'C16_context_conserved_by_every_operation (Rocq); K2 uses drop-counting context and payload values with identities.',
+            'proof over the model + drop accounting on compiled machines'),
     'C19': ('Theorems C19_outcomes_of_handle / C19_poisoned_wrapper_is_unavailable / C19_completed_dispatch_stays_in_a_declared_state '
             '(Rocq, all budgets); K2 panics every hook and drops the async future at every suspension point, then tries every public op.',
             'proof over the model + fault enumeration on compiled machines'),
